@@ -71,44 +71,101 @@ def cmdOf : Nat → List SkipCmd
   | 1 => [.predOn] | 2 => [.predOff] | 3 => [.corOn] | 4 => [.corOff] | 5 => [.allOn] | 6 => [.allOff]
   | _ => []
 
-/-- `sis N lin circ K D prior ratio u_0…u_{D-1} w_0…w_{N-1} x_0…x_{N-1} (cmd freeze valid l_0…l_{N-1})×K`
-    The harness' prediction is `DrawParticles` over a state model that adds 1 to every state entry;
-    a particle is represented by the first entry of its state column.  One output block per step:
-    `S cor.n cor.lin cor.circ |cor.parts| |cor.logw| pred.n pred.lin pred.circ |pred.parts| trig
-       neff(hex) parents… weights(hex)… states(hex)…` -/
+def cmdOf1 : Nat → Option SkipCmd
+  | 1 => some .predOn | 2 => some .predOff | 3 => some .corOn | 4 => some .corOff | 5 => some .allOn | 6 => some .allOff
+  | _ => none
+
+/-- `sis N lin circ K D prior ratio u_0…u_{D-1} E (w0… x0…)×E (ncmd cmd… freeze valid reset shift l_0…l_{N-1})×K`
+    The harness' prediction is `DrawParticles` over a state model that adds `shift` (per step) to every state
+    entry; a particle is represented by the first entry of its state column.  `reset` = a reset command arrives
+    during the step: the next step starts a new epoch, initialised with the next `(w0, x0)` pair.
+    One output block per step:
+    `S cor.n cor.lin cor.circ |cor.parts| |cor.logw| pred.n pred.lin pred.circ |pred.parts| trig neff(hex)
+       |parents| parents… weights(hex)… states(hex)… L |logged| logged corrected weights(hex)…` -/
 def sis : R String := do
   let n ← nat; let lin ← nat; let circ ← nat; let k ← nat
   let d ← nat
   let prior ← bool
   let ratio ← flt
   let us ← listOf d flt
-  let w0 ← listOf n flt
-  let x0 ← listOf n flt
+  let e ← nat
+  let inits ← listOf e (do
+    let w0 ← listOf n flt
+    let x0 ← listOf n flt
+    pure (w0, x0))
   let evs ← listOf k (do
-    let c ← nat
+    let nc ← nat
+    let cs ← listOf nc nat
     let fr ← bool
     let va ← bool
+    let rst ← bool
+    let sh ← flt
     let l ← listOf n flt
-    pure ({ cmds := cmdOf c, freezeOk := fr, likValid := va, lik := l,
-            predict := fun prev pred => { pred with parts := prev.parts.map (fun x => x + 1.0), logw := prev.logw } }
-          : SisEvent Float Float))
+    let pr : PSet Float Float → PSet Float Float → PSet Float Float :=
+      fun prev pred => { pred with parts := prev.parts.map (fun x => x + sh), logw := prev.logw }
+    let ev : SisEvent Float Float := { cmds := cs.filterMap cmdOf1, freezeOk := fr, likValid := va, lik := l, predict := pr }
+    pure (ev, rst))
   done
   let cfg : SisCfg Float := { N := n, tiny := Float.ofBits 0x0010000000000000 }
-  let init : PSet Float Float → PSet Float Float := fun s => { s with parts := x0, logw := w0 }
-  let s0 := sisInit cfg lin circ init us
+  let initArr := inits.toArray
+  let initOf : Nat → PSet Float Float → PSet Float Float := fun ep s =>
+    let p := initArr.getD (ep % (max e 1)) ([], [])
+    { s with parts := p.2, logw := p.1 }
+  let s0 := sisInit cfg lin circ (initOf 0) us
   -- the resampling object: `Resampling`, or `ResamplingWithPrior` whose initialiser writes 5e6 + j
   let pinit : PSet Float Float → PSet Float Float := fun s =>
     { s with parts := (List.range s.parts.length).map (fun j => 5.0e6 + Float.ofNat j) }
   let rsmp : PSet Float Float → PSet Float Float → Float → PSet Float Float × List Int :=
     if prior then (fun cor _ u => resampleWithPrior floorNat sortIdxFloat pinit ratio cor u) else resample
-  let (_, outs) := evs.foldl (fun (acc : SisState Float Float × Array String) ev =>
-      let nf := neffLog (sisCorrect cfg acc.1 ev).logw
-      let s := sisStepWith rsmp cfg acc.1 ev
+  let (_, _, outs) := evs.foldl (fun (acc : SisState Float Float × Nat × Array String) evr =>
+      let (st, ep, out) := acc
+      let (ev, rst) := evr
+      let lg := (sisLogged cfg st ev).2.logw
+      let nf := neffLog lg
+      let s := sisRun rsmp cfg st [SisOp.step ev]
       let blk := ["S", toString s.cor.n, toString s.cor.lin, toString s.cor.circ,
                   toString s.cor.parts.length, toString s.cor.logw.length,
                   toString s.pred.n, toString s.pred.lin, toString s.pred.circ, toString s.pred.parts.length,
                   (if s.resampled then "1" else "0"), floatStr nf, toString s.parents.length]
                  ++ intsStr s.parents ++ s.cor.logw.map floatStr ++ s.cor.parts.map floatStr
+                 ++ ["L", toString lg.length] ++ lg.map floatStr ++ ["T", toString st.step]
+      let s' := if rst then sisRun rsmp cfg s [SisOp.reset (initOf (ep + 1))] else s
+      (s', (if rst then ep + 1 else ep), out.push (join blk))) (s0, 0, #[])
+  pure (join ("ok" :: outs.toList))
+
+/-- `sisp N lin circ K D u… w0… x0… (freeze valid predx_0…predx_{N-1} |l| l…)×K` — the recursion with the
+    prediction outcome given as data (first state entry of every predicted particle, as the shipped
+    `DrawParticles` over a noisy state model produced it) and the likelihood the shipped model reported.
+    Output blocks as for `sis`. -/
+def sisp : R String := do
+  let n ← nat; let lin ← nat; let circ ← nat; let k ← nat
+  let d ← nat
+  let us ← listOf d flt
+  let w0 ← listOf n flt
+  let x0 ← listOf n flt
+  let evs ← listOf k (do
+    let fr ← bool
+    let va ← bool
+    let px ← listOf n flt
+    let nl ← nat
+    let l ← listOf nl flt
+    let pr : PSet Float Float → PSet Float Float → PSet Float Float :=
+      fun prev pred => { pred with parts := px, logw := prev.logw }
+    let ev : SisEvent Float Float := { cmds := [], freezeOk := fr, likValid := va, lik := l, predict := pr }
+    pure ev)
+  done
+  let cfg : SisCfg Float := { N := n, tiny := Float.ofBits 0x0010000000000000 }
+  let s0 := sisInit cfg lin circ (fun s => { s with parts := x0, logw := w0 }) us
+  let (_, outs) := evs.foldl (fun (acc : SisState Float Float × Array String) ev =>
+      let st := acc.1
+      let lg := (sisLogged cfg st ev).2.logw
+      let s := sisStep cfg st ev
+      let blk := ["S", toString s.cor.n, toString s.cor.lin, toString s.cor.circ,
+                  toString s.cor.parts.length, toString s.cor.logw.length,
+                  toString s.pred.n, toString s.pred.lin, toString s.pred.circ, toString s.pred.parts.length,
+                  (if s.resampled then "1" else "0"), floatStr (neffLog lg), toString s.parents.length]
+                 ++ intsStr s.parents ++ s.cor.logw.map floatStr ++ s.cor.parts.map floatStr
+                 ++ ["L", toString lg.length] ++ lg.map floatStr ++ ["T", toString st.step]
       (s, acc.2.push (join blk))) (s0, #[])
   pure (join ("ok" :: outs.toList))
 
@@ -130,6 +187,7 @@ def handle (op : String) (args : List String) : Option String :=
   | "rwp" => some ((run rwp args).getD "bad-args")
   | "sis" => some ((run sis args).getD "bad-args")
   | "glik" => some ((run glik args).getD "bad-args")
+  | "sisp" => some ((run sisp args).getD "bad-args")
   | _ => none
 
 end BFL.DriverPF
